@@ -247,14 +247,20 @@ func runCase(c *Case) (nontrivial bool, err error) {
 		ch <- res{inst, err}
 	}()
 	var inst *casket.Instance
+	beats, at := vt.Beats(), time.Now()
+	var r res
 	select {
-	case r := <-ch:
-		if r.err != nil {
-			srv.Stop(r.inst)
-			return false, fmt.Errorf("SKIP-REJECTED: %v", r.err)
-		}
-		inst = r.inst
+	case r = <-ch:
 	case <-time.After(15 * time.Second):
+		if vt.Starved(beats, at) {
+			// the whole process was short of CPU: a long second chance, and no verdict if the start then returns
+			select {
+			case r = <-ch:
+				srv.Stop(r.inst)
+				return false, fmt.Errorf("HARNESS: casket.Start needed more than 15 s on a starved machine: no verdict")
+			case <-time.After(90 * time.Second):
+			}
+		}
 		// every site the statement calls managed has its certificate in storage, so a start that does not
 		// return is trying to obtain a certificate for a site that does not qualify (or ignores storage)
 		msg := fmt.Sprintf("casket.Start did not return within 15s: it is trying to obtain a certificate although every qualifying site has one in storage\nsites: %+v\n%s", c.Sites, cf)
@@ -264,6 +270,11 @@ func runCase(c *Case) (nontrivial bool, err error) {
 		os.Exit(1)
 		return false, nil
 	}
+	if r.err != nil {
+		srv.Stop(r.inst)
+		return false, fmt.Errorf("SKIP-REJECTED: %v", r.err)
+	}
+	inst = r.inst
 	defer srv.Stop(inst)
 
 	// listeners
